@@ -46,6 +46,12 @@ func classifyChan(ch ssa.Value) (kind string, ctx ssa.Value) {
 	if call, ok := v.(*ssa.Call); ok && call.Call.IsInvoke() && call.Call.Method.Name() == "Done" && isContextType(call.Call.Value.Type()) {
 		return "ctx-done", call.Call.Value
 	}
+	// done := bgCtx.Done(), evaluated once and captured by the goroutines: the variable is that channel
+	if rv := resolveVal(v); rv != v {
+		if call, ok := rv.(*ssa.Call); ok && call.Call.IsInvoke() && call.Call.Method.Name() == "Done" && isContextType(call.Call.Value.Type()) {
+			return "ctx-done", call.Call.Value
+		}
+	}
 	// a field of a small struct that a helper of the module filled in (a := s.aborts(ctx); case <-a.ctxDone): what the helper
 	// stored there, its context parameter standing for the caller's argument
 	if inner, hc, ok := chanThroughStruct(v); ok {
